@@ -89,3 +89,11 @@ type Filter struct {
 	Sub  *Filter
 	G    *int
 }
+
+// Alien satisfies the Go interfaces Node and Pet but is not a schema type:
+// a resolver returning it is a user-code failure inside the element marshaler.
+type Alien struct{ ID string }
+
+func (Alien) IsNode()         {}
+func (a Alien) GetID() string { return a.ID }
+func (Alien) IsPet()          {}
